@@ -9,7 +9,7 @@ from util import call, quiet
 
 REQUIRED_THEOREMS = ['Usid.C09.change_count', 'Usid.C09.counts_strict', 'Usid.C09.sizes',
                      'Usid.C09.order_is_rate', 'Usid.C09.unit_values', 'Usid.C09.rebuild_indices']
-RULE = ('[also: values on a large offset / a tiny scale for the index re-builder] [also: reference values not increasing with the index; tall / dask / int64 / h5py inputs to the free functions, verbose=True, a single name as str, float32 values for the rebuild; n_dim_labels / n_dim_sizes and the ORDER of the sorted view observed] regular grids of 1-4 dimensions, sizes 1-5 (biased to 1, equal sizes; a fifth with a dimension whose reference values are not distinct), every/random storage permutation, '
+RULE = ('[also: double-precision reference values that single precision cannot hold, compared bit for bit] [also: values on a large offset / a tiny scale for the index re-builder] [also: reference values not increasing with the index; tall / dask / int64 / h5py inputs to the free functions, verbose=True, a single name as str, float32 values for the rebuild; n_dim_labels / n_dim_sizes and the ORDER of the sorted view observed] regular grids of 1-4 dimensions, sizes 1-5 (biased to 1, equal sizes; a fifth with a dimension whose reference values are not distinct), every/random storage permutation, '
         'position- and spectroscopic-shaped, INCLUDING as many or more dimensions than points; get_sort_order, '
         'get_dimensionality, get_unit_values (is_spec given, and None where the shape is unambiguous), '
         'create_spec_inds_from_vals, and the USIDataset accessors get_pos_values / get_spec_values / *_dim_sizes; '
@@ -85,6 +85,17 @@ def run_impl(inp, work):
             return {'err': r[1]}
         return {k2: _q(v) for k2, v in r[1].items()}
     out['uv_explicit'] = uv(is_spec=is_spec)
+    # exactly the reference values: double-precision values that single precision cannot hold come back bit for bit
+    v64 = np.asarray(stored_v, dtype=np.float64) + 0.1
+    r = call(get_unit_values, stored_i, v64, all_dim_names=list(side['labels']), dim_names=inp['want'], is_spec=is_spec)
+    if r[0] == 'ok':
+        if isinstance(out['uv_explicit'], dict) and 'err' not in out['uv_explicit']:
+            out['uv_exact'] = all(
+                np.asarray(v).dtype == np.float64 and
+                [float(x) for x in np.asarray(v)] == [q / 4.0 + 0.1 for q in out['uv_explicit'].get(k2, [])]
+                for k2, v in r[1].items()) if all(isinstance(x, list) for x in out['uv_explicit'].values()) else None
+    else:
+        out['uv_exact'] = {'err': r[1]}
     n = inds_nk.shape[0]
     out['unambiguous'] = (k < n)
     out['uv_auto'] = uv()
@@ -167,6 +178,9 @@ def oracle(inp, obs):
     n = int(np.prod(sizes))
     tag = 'dims>points' if k > n else ('dims=points' if k == n else 'regular')
     big_rate = [d for d in rate if sizes[d] > 1]
+    if obs.get('uv_exact') is False:
+        fails.append('unit-values-exact-%s: double-precision reference values do not come back bit for bit '
+                     '(rounded through another element type?)' % tag)
     if isinstance(obs['order'], dict):
         fails.append('order-raises-%s: get_sort_order raised %s' % (tag, obs['order']['err']))
     else:
